@@ -290,6 +290,8 @@ structure IncNode where
   kind : Kind
   gtypeName : Option Str
   parent : Option (NsRef × Str)
+  /-- the `c:symbol-prefix` attribute of the include GIR (`GIRParser` hands it to the node) -/
+  cSymbolPrefix : Option Str := none
   deriving Repr, DecidableEq
 
 /-- elements hung on a type by the pairing -/
@@ -672,7 +674,7 @@ def targetOfNode (n : Node) : Target :=
   ⟨.cur, n.name, n.kind, n.cSymbolPrefix, n.getType, n.foreign, n.parent⟩
 
 def targetOfInc (i : Nat) (n : IncNode) : Target :=
-  ⟨.inc i, n.name, n.kind, none, (n.gtypeName.map (fun _ => "intern".toList)), false, n.parent⟩
+  ⟨.inc i, n.name, n.kind, n.cSymbolPrefix, (n.gtypeName.map (fun _ => "intern".toList)), false, n.parent⟩
 
 /-- `lookup_giname` -/
 def lookupGiname (env : Env) (st : NsState) (ref : NsRef × Str) : Option Target :=
